@@ -52,9 +52,17 @@ class Fn:
 
 
 def _find_in(body, name, kinds):
+    occ = 0
+    if '@' in name:  # name@K: the K-th definition of that name in this body (0-based)
+        name, k = name.split('@')
+        occ = int(k)
+    seen = 0
     for n in body:
         if isinstance(n, kinds) and n.name == name:
-            return n
+            if seen == occ:
+                return n
+            seen += 1
+            continue
         # look through `if`/`try` at module level (rare)
         if isinstance(n, (ast.If, ast.Try)):
             for sub in ([n.body, n.orelse] if isinstance(n, ast.If) else [n.body, n.orelse, n.finalbody]):
